@@ -67,14 +67,15 @@ pub fn write(
             .ok()
             .map(|SoName(n)| n);
 
-        let module = fill_raw_module(buffer, &dumper.mappings[map_idx], &identifier, soname)?;
+        let module = fill_raw_module(buffer, &dumper.mappings[map_idx], &identifier, soname, true)?;
         modules.push(module);
     }
 
     // Next write all the mappings provided by the caller
     for user in &config.user_mapping_list {
         // GUID was provided by caller.
-        let module = fill_raw_module(buffer, &user.mapping, &user.identifier, None)?;
+        // ... and so was the name: it is listed as given, not looked up on this machine.
+        let module = fill_raw_module(buffer, &user.mapping, &user.identifier, None, false)?;
         modules.push(module);
     }
 
@@ -98,6 +99,7 @@ fn fill_raw_module(
     mapping: &MappingInfo,
     identifier: &[u8],
     soname: Option<String>,
+    look_up_soname: bool,
 ) -> Result<MDRawModule, errors::SectionMappingsError> {
     let cv_record = if identifier.is_empty() {
         // Just zeroes
@@ -118,9 +120,13 @@ fn fill_raw_module(
         sig_section.location()
     };
 
-    let (file_path, _, so_version) = mapping
-        .get_mapping_effective_path_name_and_version(soname)
-        .map_err(|e| errors::SectionMappingsError::GetEffectivePathError(mapping.clone(), e))?;
+    let (file_path, _, so_version) = if look_up_soname {
+        mapping
+            .get_mapping_effective_path_name_and_version(soname)
+            .map_err(|e| errors::SectionMappingsError::GetEffectivePathError(mapping.clone(), e))?
+    } else {
+        mapping.get_mapping_given_path_name_and_version()
+    };
     let name_header = write_string_to_location(buffer, file_path.to_string_lossy().as_ref())?;
 
     let version_info = so_version.map_or(Default::default(), |sov| format::VS_FIXEDFILEINFO {
